@@ -15,6 +15,7 @@ type LMan struct {
 	D, Subject, AT string
 	Raw            []byte
 	Ann            map[string]string
+	Index          bool // an OCI index (as artifact: no config to fall back to for the artifactType)
 }
 
 // Legacy describes a generated layout whose referrers are maintained with the fallback tag scheme.
@@ -54,6 +55,18 @@ func BuildLegacy(r *rand.Rand, root string, tag string) Legacy {
 		raw, _ := json.Marshal(m)
 		return LMan{D: wr(raw, alg), Raw: raw, Subject: subj, AT: at, Ann: ann}
 	}
+	idxMan := func(seed, subj, at string, children []any) LMan {
+		ann := map[string]string{"seed": seed, "u": tag}
+		m := map[string]any{"schemaVersion": 2, "mediaType": MTIndex, "manifests": children, "annotations": ann}
+		if subj != "" {
+			m["subject"] = map[string]any{"mediaType": MTImage, "digest": subj, "size": 1}
+		}
+		if at != "" {
+			m["artifactType"] = at
+		}
+		raw, _ := json.Marshal(m)
+		return LMan{D: wr(raw, "sha256"), Raw: raw, Subject: subj, AT: at, Ann: ann, Index: true}
+	}
 	L := Legacy{Expected: map[string][]string{}, OtherTags: map[string]string{}}
 	entries := []any{}
 	tagEntry := func(mt, d string, size int, tg string) any {
@@ -77,7 +90,7 @@ func BuildLegacy(r *rand.Rand, root string, tag string) Legacy {
 	}
 	for si, sd := range L.Subjects {
 		nref := r.Intn(5)
-		kind := []string{"accurate", "accurate", "stale-size", "stale-artifacttype", "stale-annotations", "missing-manifest", "mixed-subject", "extra-nonreferrer"}[r.Intn(8)]
+		kind := []string{"accurate", "accurate", "stale-size", "stale-artifacttype", "stale-annotations", "missing-manifest", "mixed-subject", "extra-nonreferrer", "duplicate-entry", "index-referrer", "index-referrer-wrong-artifacttype"}[r.Intn(11)]
 		if nref == 0 {
 			kind = "accurate"
 		}
@@ -94,15 +107,29 @@ func BuildLegacy(r *rand.Rand, root string, tag string) Legacy {
 				at = "" // falls back to the config media type
 			}
 			a := img(fmt.Sprintf("art%d-%d", si, j), subjFor, at, "sha256")
-			L.All = append(L.All, a)
-			L.Expected[subjFor] = append(L.Expected[subjFor], a.D)
 			eff := at
 			if eff == "" {
 				eff = MTConfig
 			}
 			dsc := map[string]any{"mediaType": MTImage, "digest": a.D, "size": len(a.Raw), "artifactType": eff, "annotations": a.Ann}
+			if j == 0 && strings.HasPrefix(kind, "index-referrer") {
+				// the referrer is an index that names no artifactType: there is no config to fall back to, it is
+				// listed without one - whatever the fallback descriptor says
+				a = idxMan(fmt.Sprintf("iart%d-%d", si, j), subjFor, "", []any{})
+				eff = ""
+				dsc = map[string]any{"mediaType": MTIndex, "digest": a.D, "size": len(a.Raw), "annotations": a.Ann}
+				if kind == "index-referrer-wrong-artifacttype" {
+					dsc["artifactType"] = "application/wrong-for-an-index"
+				}
+			}
+			L.All = append(L.All, a)
+			L.Expected[subjFor] = append(L.Expected[subjFor], a.D)
 			if subjFor == sd {
-				accDescs = append(accDescs, map[string]any{"mediaType": MTImage, "digest": a.D, "size": len(a.Raw), "artifactType": eff, "annotations": a.Ann})
+				acc := map[string]any{"mediaType": dsc["mediaType"], "digest": a.D, "size": len(a.Raw), "annotations": a.Ann}
+				if eff != "" {
+					acc["artifactType"] = eff
+				}
+				accDescs = append(accDescs, acc)
 			}
 			if j == 0 {
 				switch kind {
@@ -115,6 +142,9 @@ func BuildLegacy(r *rand.Rand, root string, tag string) Legacy {
 				}
 			}
 			descs = append(descs, dsc)
+		}
+		if kind == "duplicate-entry" && len(descs) > 0 {
+			descs = append(descs, descs[0]) // one referrer listed twice: it is still one referrer
 		}
 		if kind == "missing-manifest" {
 			descs = append(descs, map[string]any{"mediaType": MTImage, "digest": DigestOf("sha256", []byte(fmt.Sprintf("gone%d%s", si, tag))), "size": 10})
@@ -172,6 +202,20 @@ func BuildLegacy(r *rand.Rand, root string, tag string) Legacy {
 	look := "sha256-" + strings.Repeat("0", 63)
 	L.OtherTags[look] = lk.D
 	entries = append(entries, tagEntry(MTImage, lk.D, len(lk.Raw), look))
+	if r.Intn(3) == 0 {
+		// ... and right shape, pointing at an index - but an ordinary multi-platform one: none of its manifests names
+		// a subject, so it is no "index of referrers" and its tag is one of "every other tag"
+		p1, p2 := img("platform-a", "", "", "sha256"), img("platform-b", "", "", "sha256")
+		L.All = append(L.All, p1, p2)
+		mp := idxMan("multi-platform", "", "", []any{
+			map[string]any{"mediaType": MTImage, "digest": p1.D, "size": len(p1.Raw), "platform": map[string]string{"os": "linux", "architecture": "amd64"}},
+			map[string]any{"mediaType": MTImage, "digest": p2.D, "size": len(p2.Raw), "platform": map[string]string{"os": "linux", "architecture": "arm64"}}})
+		L.All = append(L.All, mp)
+		tg := "sha256-" + DigestOf("sha256", []byte("release"+tag))[7:]
+		L.OtherTags[tg] = mp.D
+		entries = append(entries, tagEntry(MTIndex, mp.D, len(mp.Raw), tg))
+		L.Kinds = append(L.Kinds, "ordinary-index-under-digest-shaped-tag")
+	}
 	r.Shuffle(len(entries), func(i, j int) { entries[i], entries[j] = entries[j], entries[i] })
 	ib, _ := json.Marshal(map[string]any{"schemaVersion": 2, "manifests": entries})
 	_ = os.WriteFile(filepath.Join(p, "index.json"), ib, 0o644)
